@@ -1,9 +1,2443 @@
-use crate::check::CompResult;
+//! C14 — RaftLog behaves as one logical log over storage + unstable + pending snapshot.
+//!
+//! Joint breadth-first search over pairs (real `raft::RaftLog<sim::Store>`, reference model)
+//! under every operation of the alphabet below, from every reachable pair, until the
+//! fixpoint under the value bounds of the tier (index <= n, term <= t, at most q persist
+//! notifications outstanding, appends of at most k entries):
+//!   quick     n=5 t=3 q=2 k=2                      (12.2e6 pairs, 0.5e6 distinct RaftLog states)
+//!   thorough  n=6 t=3 q=2 k=2, then n=4 t=3 q=3 k=2 (63.9e6 and 33.2e6 pairs, 2.07e6 and 0.1e6 states)
+//! (`RMC_RAFTLOG_BOUNDS=n,t,q,k` overrides the bounds for experiments.)
+//!
+//! Reference model: one logical log — a snapshot point `(snap_i, snap_t)`, the terms of the
+//! entries after it, the split point `offset` (first index not yet handed to storage), a
+//! pending-snapshot flag, `committed`, `persisted`, `applied` — next to a plain model of what
+//! the storage holds (its own snapshot point + terms; it may carry a stale tail above
+//! `offset` after a truncation reached into it) and the FIFO of ready records RawNode keeps
+//! for `on_persist_ready`.  Entry payloads are a function of (index, term) (Log Matching: a
+//! pair identifies one entry) with three different sizes so that size limits cut at
+//! different places.
+//!
+//! Alphabet (driven the way Raft / RawNode drive RaftLog):
+//!   Append{k,t}          leader `append` of k entries at last+1, term t >= last term
+//!   MaybeAppend{..}      follower `maybe_append(prev_i, prev_t, commit, ents)`; all prev_i in
+//!                        0..=last+1, prev_t in 0..=T, commit in 0..=n, 0..=k entries with
+//!                        non-decreasing terms >= prev_t.  Excluded by the model's knowledge:
+//!                        a conflict at an index <= committed (documented panic) and a
+//!                        "match" of prev_t = 0 at prev_i > 0 (no real entry has term 0; such a
+//!                        pair only "matches" outside [dummy, last]).  Rejected pairs (term
+//!                        mismatch) return before looking at commit/entries, so they are run
+//!                        with two representative (commit, entries) payloads.
+//!   CommitTo(i)          i <= last (beyond last is the documented panic)
+//!   MaybeCommit(i,t)     i <= last+1, t >= 1 (Raft passes its own term)
+//!   Ready                RawNode::ready + application write + commit_ready as one step:
+//!                        take unstable snapshot/entries, WriteOp::Snapshot, WriteOp::Entries,
+//!                        `stable_snap`, `stable_entries`; pushes the ready record
+//!   Persist(k)           RawNode::on_persist_ready over the k oldest records: fold them as
+//!                        RawNode does, `maybe_persist_snap`, then `maybe_persist` — records
+//!                        may be arbitrarily stale (appends, truncations, restores, further
+//!                        readies in between)
+//!   Restore(i,t)         snapshot at i >= committed (i == committed only with the log's own
+//!                        term there: committed entries agree with any snapshot)
+//!   AppliedTo(i)         applied <= i <= min(committed, persisted) (limit 0: RawNode only
+//!                        hands out persisted entries)
+//!   Compact(i)           storage compaction, storage dummy < i <= applied
+//!
+//! After every execution of an operation: return value against the model, `committed`
+//! monotone, no entry at or below `committed` altered.  For every new (RaftLog, model) state
+//! all observers are compared with the model — term, first/last index, last_term, match_term,
+//! is_up_to_date, commit_info, entries/slice for every range x limit {None, 0, one entry, two
+//! entries - 1, two entries, u64::MAX}, find_conflict, find_conflict_by_term,
+//! (has_)next_entries(_since) also with max_apply_unpersisted_log_limit 1 and 100,
+//! unstable_entries/unstable_snapshot, snapshot(), the Unstable accessors, the storage content
+//! — and the invariants of the property are evaluated: applied <= committed <= last_index,
+//! applied <= persisted (limit 0), persisted < unstable.offset, persisted <= storage last
+//! index with the storage's term there equal to the log's.
+//!
+//! The ready records are harness state RaftLog never sees, so the real code is executed once
+//! per (RaftLog state, operation with arguments) and the result is reused for every record
+//! queue that state is paired with (see "exploration" below); the pair count and the
+//! reachable set are exactly those of the plain product search.
+//!
+//! Not covered: max_apply_unpersisted_log_limit > 0 as a driver of applied_to (only its
+//! observers), restart (`RaftLog::new` over a non-empty store), a second pass over MemStorage
+//! (MemStorage itself is the subject of C19), LogTemporarilyUnavailable from the storage.
 
-pub fn run(_tier: &str, _seed: u64, _budget_s: f64, _threads: usize) -> CompResult {
-    super::not_built("raftlog")
+use crate::check::CompResult;
+use crate::sim::{Store, WriteOp};
+use crate::util::guarded;
+use raft::eraftpb::{ConfState, Entry, Snapshot};
+use raft::{Config, Error, GetEntriesContext, RaftLog, Storage, StorageError};
+use serde_json::{json, Value};
+use std::collections::HashSet;
+use std::sync::atomic::{AtomicBool, Ordering};
+use std::sync::Mutex;
+
+// ------------------------------------------------------------------------------------------
+// bounds
+// ------------------------------------------------------------------------------------------
+
+#[derive(Clone, Copy, Debug)]
+struct Bounds {
+    /// largest index
+    n: u64,
+    /// largest term
+    t: u64,
+    /// most ready records outstanding (async persistence depth)
+    q: usize,
+    /// most entries per append
+    k: usize,
 }
 
-pub fn replay(_j: &serde_json::Value) -> i32 {
-    2
+/// The passes of a tier.  quick: one fixpoint at index <= 5, term <= 3, two outstanding
+/// readies.  thorough: index <= 6 with two outstanding readies, then index <= 4 with three
+/// (n=5 with three outstanding readies reaches no RaftLog state beyond the quick pass: 312e6
+/// pairs over the same 503,535 states, five minutes spent in the pair closure alone).
+fn bounds_for(tier: &str) -> Vec<Bounds> {
+    if let Ok(v) = std::env::var("RMC_RAFTLOG_BOUNDS") {
+        let x: Vec<u64> = v.split(',').filter_map(|a| a.parse().ok()).collect();
+        if x.len() == 4 {
+            return vec![Bounds {
+                n: x[0].clamp(1, 7),
+                t: x[1].clamp(1, 3),
+                q: (x[2] as usize).clamp(1, 3),
+                k: (x[3] as usize).clamp(1, 2),
+            }];
+        }
+    }
+    if tier == "thorough" {
+        vec![Bounds { n: 6, t: 3, q: 2, k: 2 }, Bounds { n: 4, t: 3, q: 3, k: 2 }]
+    } else {
+        vec![Bounds { n: 5, t: 3, q: 2, k: 2 }]
+    }
+}
+
+// ------------------------------------------------------------------------------------------
+// entries and sizes
+// ------------------------------------------------------------------------------------------
+
+fn payload_len(index: u64, term: u64) -> usize {
+    ((index + 2 * term) % 3) as usize
+}
+
+fn mk_entry(index: u64, term: u64) -> Entry {
+    let mut e = Entry::default();
+    e.index = index;
+    e.term = term;
+    let n = payload_len(index, term);
+    if n > 0 {
+        // static payloads: cloning an entry touches no shared reference count
+        const P: [&[u8]; 8] = [b"@@", b"aa", b"bb", b"cc", b"dd", b"ee", b"ff", b"gg"];
+        e.data = bytes::Bytes::from_static(&P[(term & 7) as usize][..n]);
+    }
+    e
+}
+
+/// Wire size of `mk_entry(index, term)` computed by hand (all varints are one byte here):
+/// tag+term, tag+index, tag+len+payload.  Checked against protobuf at start-up.
+fn esize(index: u64, term: u64) -> u64 {
+    let n = payload_len(index, term) as u64;
+    let mut s = 0;
+    if term > 0 {
+        s += 2;
+    }
+    if index > 0 {
+        s += 2;
+    }
+    if n > 0 {
+        s += 2 + n;
+    }
+    s
+}
+
+fn mk_snapshot(index: u64, term: u64) -> Snapshot {
+    let mut s = Snapshot::default();
+    let m = s.mut_metadata();
+    m.index = index;
+    m.term = term;
+    s
+}
+
+/// "Non-empty maximal prefix within the limit": the first entry always, then as many as fit.
+fn prefix_len(sizes: &[u64], lim: Option<u64>) -> usize {
+    if sizes.is_empty() {
+        return 0;
+    }
+    let lim = match lim {
+        None | Some(u64::MAX) => return sizes.len(),
+        Some(l) => l,
+    };
+    let mut n = 1;
+    let mut sum = sizes[0];
+    while n < sizes.len() && sum + sizes[n] <= lim {
+        sum += sizes[n];
+        n += 1;
+    }
+    n
+}
+
+// ------------------------------------------------------------------------------------------
+// operations
+// ------------------------------------------------------------------------------------------
+
+#[derive(Clone, Copy, Debug, PartialEq, Eq)]
+enum Op {
+    Append { k: u8, t: u8 },
+    /// prev index, prev term, commit, number of entries, their terms
+    MaybeAppend { pi: u8, pt: u8, c: u8, n: u8, ts: [u8; 2] },
+    CommitTo(u8),
+    MaybeCommit(u8, u8),
+    Ready,
+    Persist(u8),
+    Restore(u8, u8),
+    AppliedTo(u8),
+    Compact(u8),
+}
+
+impl Op {
+    fn name(&self) -> &'static str {
+        match self {
+            Op::Append { .. } => "append",
+            Op::MaybeAppend { .. } => "maybe_append",
+            Op::CommitTo(_) => "commit_to",
+            Op::MaybeCommit(..) => "maybe_commit",
+            Op::Ready => "ready",
+            Op::Persist(_) => "persist",
+            Op::Restore(..) => "restore",
+            Op::AppliedTo(_) => "applied_to",
+            Op::Compact(_) => "compact",
+        }
+    }
+
+    fn to_json(&self) -> Value {
+        match *self {
+            Op::Append { k, t } => json!({"op": "append", "k": k, "term": t}),
+            Op::MaybeAppend { pi, pt, c, n, ts } => json!({
+                "op": "maybe_append", "prev_index": pi, "prev_term": pt, "commit": c,
+                "entry_terms": ts[..n as usize].to_vec(),
+            }),
+            Op::CommitTo(i) => json!({"op": "commit_to", "index": i}),
+            Op::MaybeCommit(i, t) => json!({"op": "maybe_commit", "index": i, "term": t}),
+            Op::Ready => json!({"op": "ready"}),
+            Op::Persist(k) => json!({"op": "persist", "records": k}),
+            Op::Restore(i, t) => json!({"op": "restore", "index": i, "term": t}),
+            Op::AppliedTo(i) => json!({"op": "applied_to", "index": i}),
+            Op::Compact(i) => json!({"op": "compact", "index": i}),
+        }
+    }
+
+    fn from_json(j: &Value) -> Option<Op> {
+        let u = |k: &str| -> Option<u8> { j.get(k)?.as_u64().map(|x| x as u8) };
+        Some(match j.get("op")?.as_str()? {
+            "append" => Op::Append { k: u("k")?, t: u("term")? },
+            "maybe_append" => {
+                let a = j.get("entry_terms")?.as_array()?;
+                if a.len() > 2 {
+                    return None;
+                }
+                let mut ts = [0u8; 2];
+                for (p, x) in a.iter().enumerate() {
+                    ts[p] = x.as_u64()? as u8;
+                }
+                Op::MaybeAppend {
+                    pi: u("prev_index")?,
+                    pt: u("prev_term")?,
+                    c: u("commit")?,
+                    n: a.len() as u8,
+                    ts,
+                }
+            }
+            "commit_to" => Op::CommitTo(u("index")?),
+            "maybe_commit" => Op::MaybeCommit(u("index")?, u("term")?),
+            "ready" => Op::Ready,
+            "persist" => Op::Persist(u("records")?),
+            "restore" => Op::Restore(u("index")?, u("term")?),
+            "applied_to" => Op::AppliedTo(u("index")?),
+            "compact" => Op::Compact(u("index")?),
+            _ => return None,
+        })
+    }
+}
+
+/// What an operation returns (implementation) / is expected to return (model).
+#[derive(Clone, Debug, PartialEq)]
+enum Ret {
+    Unit,
+    U64(u64),
+    Bool(bool),
+    OptPair(Option<(u64, u64)>),
+    /// snapshot (index, term) and entries handed to the application by this ready
+    Ready(Option<(u64, u64)>, Vec<Entry>),
+    /// results of maybe_persist_snap / maybe_persist where called
+    Persist(Option<bool>, Option<bool>),
+}
+
+// ------------------------------------------------------------------------------------------
+// non-vacuity counters
+// ------------------------------------------------------------------------------------------
+
+const NST: usize = 30;
+const S_APPEND: usize = 0;
+const S_MAPP_REJECT: usize = 1;
+const S_MAPP_NOCONFLICT: usize = 2;
+const S_MAPP_PURE_APPEND: usize = 3;
+const S_TRUNC_UNSTABLE: usize = 4;
+const S_TRUNC_AT_OFFSET: usize = 5;
+const S_TRUNC_STABLE: usize = 6;
+const S_PERSISTED_LOWERED: usize = 7;
+const S_PERSIST_OK: usize = 8;
+const S_PERSIST_STALE_OFFSET: usize = 9;
+const S_PERSIST_STALE_TERM: usize = 10;
+const S_PERSIST_OLD: usize = 11;
+const S_PSNAP_OK: usize = 12;
+const S_PSNAP_NOOP: usize = 13;
+const S_RESTORE: usize = 14;
+const S_RESTORE_LOWERED: usize = 15;
+const S_COMPACT: usize = 16;
+const S_READY_SNAP: usize = 17;
+const S_READY_OVERWRITE: usize = 18;
+const S_LIMITED: usize = 19;
+const S_STITCHED: usize = 20;
+const S_SHORT_PAGE: usize = 21;
+const S_COMPACTED_ERR: usize = 22;
+const S_FCBT_BELOW_DUMMY: usize = 23;
+const S_MAPP_COMMIT: usize = 24;
+const S_READY_SNAP_AND_ENTS: usize = 25;
+const S_PERSIST_SNAP_PENDING: usize = 26;
+const S_BLOCKED_PSNAP: usize = 27;
+const S_COMPACT_UNDER_SNAP: usize = 28;
+const S_RESTORE_OVER_PENDING: usize = 29;
+
+const ST_NAMES: [&str; NST] = [
+    "leader_appends",
+    "maybe_append_rejected",
+    "maybe_append_all_present",
+    "maybe_append_pure_append",
+    "truncations_inside_unstable",
+    "truncations_at_offset",
+    "truncations_into_stable_offset_moved_back",
+    "persisted_lowered_by_conflict",
+    "maybe_persist_accepted",
+    "stale_maybe_persist_rejected_not_below_first_update_index",
+    "stale_maybe_persist_rejected_storage_term_differs",
+    "maybe_persist_rejected_not_above_persisted",
+    "maybe_persist_snap_accepted",
+    "maybe_persist_snap_noop",
+    "snapshot_restores",
+    "restore_lowered_persisted",
+    "storage_compactions",
+    "readies_with_snapshot",
+    "readies_overwriting_stale_storage_tail",
+    "limited_reads_truncated",
+    "stitched_reads_storage_plus_unstable",
+    "short_storage_page_reads",
+    "compacted_errors",
+    "find_conflict_by_term_below_dummy",
+    "maybe_append_advanced_commit",
+    "readies_with_snapshot_and_entries",
+    "maybe_persist_while_snapshot_pending",
+    "persist_snap_precondition_blocked",
+    "compactions_under_pending_snapshot",
+    "restores_over_pending_snapshot",
+];
+
+/// Counters that must be positive for the run to count as non-vacuous.
+const ST_REQUIRED: [usize; 12] = [
+    S_TRUNC_UNSTABLE,
+    S_TRUNC_STABLE,
+    S_PERSISTED_LOWERED,
+    S_PERSIST_OK,
+    S_PERSIST_STALE_OFFSET,
+    S_PERSIST_STALE_TERM,
+    S_RESTORE,
+    S_COMPACT,
+    S_LIMITED,
+    S_STITCHED,
+    S_SHORT_PAGE,
+    S_PSNAP_OK,
+];
+
+type Stats = [u64; NST];
+
+// ------------------------------------------------------------------------------------------
+// reference model
+// ------------------------------------------------------------------------------------------
+
+#[derive(Clone, Copy, Debug, PartialEq, Eq, Default)]
+struct Rec {
+    snap: Option<(u64, u64)>,
+    last: Option<(u64, u64)>,
+}
+
+/// Tiny inline vector (the model is copied for every transition).
+#[derive(Clone, Copy, PartialEq, Eq)]
+struct SV<T: Copy + Default + PartialEq, const N: usize> {
+    len: u8,
+    a: [T; N],
+}
+
+impl<T: Copy + Default + PartialEq + std::fmt::Debug, const N: usize> std::fmt::Debug for SV<T, N> {
+    fn fmt(&self, f: &mut std::fmt::Formatter<'_>) -> std::fmt::Result {
+        write!(f, "{:?}", self.as_slice())
+    }
+}
+
+impl<T: Copy + Default + PartialEq, const N: usize> SV<T, N> {
+    fn new() -> Self {
+        SV { len: 0, a: [T::default(); N] }
+    }
+    fn len(&self) -> usize {
+        self.len as usize
+    }
+    fn as_slice(&self) -> &[T] {
+        &self.a[..self.len as usize]
+    }
+    fn push(&mut self, x: T) {
+        self.a[self.len as usize] = x;
+        self.len += 1;
+    }
+    fn truncate(&mut self, n: usize) {
+        if n < self.len as usize {
+            for k in n..self.len as usize {
+                self.a[k] = T::default(); // keep the unused tail canonical for ==
+            }
+            self.len = n as u8;
+        }
+    }
+    fn clear(&mut self) {
+        self.truncate(0)
+    }
+    /// removes the first n elements
+    fn drop_front(&mut self, n: usize) {
+        let l = self.len as usize;
+        let n = n.min(l);
+        for k in 0..l {
+            self.a[k] = if k + n < l { self.a[k + n] } else { T::default() };
+        }
+        self.len = (l - n) as u8;
+    }
+}
+
+#[derive(Clone, Copy, Debug, PartialEq, Eq)]
+struct Model {
+    // ---- the logical log
+    snap_i: u64,
+    snap_t: u64,
+    /// terms of the entries snap_i+1 ..
+    ents: SV<u64, 8>,
+    /// first index not yet handed to storage (stable_upto + 1)
+    offset: u64,
+    /// the snapshot point has not been handed to storage yet
+    pending_snap: bool,
+    committed: u64,
+    persisted: u64,
+    applied: u64,
+    // ---- what the storage holds
+    st_snap_i: u64,
+    st_snap_t: u64,
+    st_ents: SV<u64, 8>,
+    // ---- RawNode's ready records awaiting on_persist_ready
+    queue: SV<Rec, 4>,
+}
+
+impl Model {
+    fn new() -> Model {
+        Model {
+            snap_i: 0,
+            snap_t: 0,
+            ents: SV::new(),
+            offset: 1,
+            pending_snap: false,
+            committed: 0,
+            persisted: 0,
+            applied: 0,
+            st_snap_i: 0,
+            st_snap_t: 0,
+            st_ents: SV::new(),
+            queue: SV::new(),
+        }
+    }
+    fn first(&self) -> u64 {
+        self.snap_i + 1
+    }
+    fn last(&self) -> u64 {
+        self.snap_i + self.ents.len() as u64
+    }
+    /// Term of index i; 0 outside [dummy, last] (documented behaviour of `RaftLog::term`).
+    fn term(&self, i: u64) -> u64 {
+        if i == self.snap_i {
+            self.snap_t
+        } else if i > self.snap_i && i <= self.last() {
+            self.ents.a[(i - self.snap_i - 1) as usize]
+        } else {
+            0
+        }
+    }
+    fn st_last(&self) -> u64 {
+        self.st_snap_i + self.st_ents.len() as u64
+    }
+    fn st_term(&self, i: u64) -> Option<u64> {
+        if i == self.st_snap_i {
+            Some(self.st_snap_t)
+        } else if i > self.st_snap_i && i <= self.st_last() {
+            Some(self.st_ents.a[(i - self.st_snap_i - 1) as usize])
+        } else {
+            None
+        }
+    }
+    fn truncate_from(&mut self, i: u64) {
+        // drop entries >= i
+        debug_assert!(i > self.snap_i);
+        self.ents.truncate((i - self.snap_i - 1) as usize);
+    }
+    /// First index whose term differs from the log (0 outside the log), else 0.
+    fn find_conflict(&self, start: u64, terms: &[u64]) -> u64 {
+        for (p, t) in terms.iter().enumerate() {
+            let i = start + p as u64;
+            if self.term(i) != *t {
+                return i;
+            }
+        }
+        0
+    }
+    fn fold(recs: &[Rec]) -> (u64, u64, u64) {
+        let (mut snap_index, mut index, mut term) = (0, 0, 0);
+        for r in recs {
+            if let Some((i, _)) = r.snap {
+                snap_index = i;
+                index = 0;
+                term = 0;
+            }
+            if let Some((i, t)) = r.last {
+                index = i;
+                term = t;
+            }
+        }
+        (snap_index, index, term)
+    }
+
+    /// Sanity of the model itself (a failure is a harness defect, reported loudly).
+    fn self_check(&self) -> Option<String> {
+        let last = self.last();
+        if !(self.first() <= self.offset && self.offset <= last + 1) {
+            return Some(format!("offset {} outside [{}, {}]", self.offset, self.first(), last + 1));
+        }
+        if !(self.applied <= self.committed && self.committed <= last) {
+            return Some("applied <= committed <= last broken".into());
+        }
+        if self.persisted >= self.offset {
+            return Some("persisted >= offset".into());
+        }
+        if self.pending_snap && self.offset != self.snap_i + 1 {
+            return Some("pending snapshot but offset != snap+1".into());
+        }
+        if !self.pending_snap {
+            if self.st_snap_i != self.snap_i || self.st_snap_t != self.snap_t {
+                return Some("storage dummy differs from logical dummy".into());
+            }
+            for i in self.first()..self.offset {
+                if self.st_term(i) != Some(self.term(i)) {
+                    return Some(format!("storage differs from the log below offset at {}", i));
+                }
+            }
+        }
+        if self.persisted > self.st_last() {
+            return Some("persisted > storage last".into());
+        }
+        None
+    }
+}
+
+/// All operations enabled in `m` under the bounds, in a fixed order.
+fn enabled_ops(m: &Model, b: &Bounds, st: &mut Stats) -> Vec<Op> {
+    let mut v = Vec::with_capacity(256);
+    let last = m.last();
+    let last_term = m.term(last);
+    // leader append
+    for k in 1..=b.k as u64 {
+        if last + k > b.n {
+            break;
+        }
+        for t in last_term.max(1)..=b.t {
+            v.push(Op::Append { k: k as u8, t: t as u8 });
+        }
+    }
+    // follower append
+    for pi in 0..=last + 1 {
+        for pt in 0..=b.t {
+            let matched = m.term(pi) == pt;
+            if !matched {
+                v.push(Op::MaybeAppend { pi: pi as u8, pt: pt as u8, c: 0, n: 0, ts: [0, 0] });
+                if pi + 1 <= b.n {
+                    let t1 = pt.max(1) as u8;
+                    v.push(Op::MaybeAppend { pi: pi as u8, pt: pt as u8, c: b.n as u8, n: 1, ts: [t1, 0] });
+                }
+                continue;
+            }
+            if pt == 0 && pi > 0 {
+                // a zero term "matches" only outside the log: not an input a leader can produce
+                continue;
+            }
+            let lo = pt.max(1);
+            let mut vecs: SV<(u8, [u8; 2]), 48> = SV::new();
+            vecs.push((0, [0, 0]));
+            if b.k >= 1 && pi + 1 <= b.n {
+                for t1 in lo..=b.t {
+                    vecs.push((1, [t1 as u8, 0]));
+                    if b.k >= 2 && pi + 2 <= b.n {
+                        for t2 in t1..=b.t {
+                            vecs.push((2, [t1 as u8, t2 as u8]));
+                        }
+                    }
+                }
+            }
+            for &(n, ts) in vecs.as_slice() {
+                let ta = [ts[0] as u64, ts[1] as u64];
+                let conflict = m.find_conflict(pi + 1, &ta[..n as usize]);
+                if conflict != 0 && conflict <= m.committed {
+                    continue; // documented panic: conflict with a committed entry
+                }
+                for c in 0..=b.n {
+                    v.push(Op::MaybeAppend { pi: pi as u8, pt: pt as u8, c: c as u8, n, ts });
+                }
+            }
+        }
+    }
+    for i in 0..=last {
+        v.push(Op::CommitTo(i as u8));
+    }
+    for i in 0..=last + 1 {
+        for t in 1..=b.t {
+            v.push(Op::MaybeCommit(i as u8, t as u8));
+        }
+    }
+    if (m.pending_snap || m.offset <= last) && m.queue.len() < b.q {
+        v.push(Op::Ready);
+    }
+    for k in 1..=m.queue.len() {
+        let (snap_index, _, _) = Model::fold(&m.queue.as_slice()[..k]);
+        if snap_index > m.persisted && (snap_index > m.committed || snap_index >= m.offset) {
+            // would be the documented fatal of maybe_persist_snap; never reachable under the
+            // legal call orders (counted; must stay 0)
+            st[S_BLOCKED_PSNAP] += 1;
+            continue;
+        }
+        v.push(Op::Persist(k as u8));
+    }
+    for i in m.committed.max(1)..=b.n {
+        for t in 1..=b.t {
+            if i <= m.committed && m.term(i) != t {
+                continue;
+            }
+            v.push(Op::Restore(i as u8, t as u8));
+        }
+    }
+    for i in m.applied..=m.committed.min(m.persisted) {
+        v.push(Op::AppliedTo(i as u8));
+    }
+    for i in m.st_snap_i + 1..=m.applied.min(m.st_last()) {
+        v.push(Op::Compact(i as u8));
+    }
+    v
+}
+
+/// Applies `op` to the model; returns the expected return value.
+fn apply_model(m: &mut Model, op: &Op, st: &mut Stats) -> Ret {
+    match *op {
+        Op::Append { k, t } => {
+            for _ in 0..k {
+                m.ents.push(t as u64);
+            }
+            st[S_APPEND] += 1;
+            Ret::U64(m.last())
+        }
+        Op::MaybeAppend { pi, pt, c, n, ts } => {
+            let (pi, pt, c) = (pi as u64, pt as u64, c as u64);
+            if m.term(pi) != pt {
+                st[S_MAPP_REJECT] += 1;
+                return Ret::OptPair(None);
+            }
+            let ta = [ts[0] as u64, ts[1] as u64];
+            let terms = &ta[..n as usize];
+            let conflict = m.find_conflict(pi + 1, terms);
+            if conflict == 0 {
+                st[S_MAPP_NOCONFLICT] += 1;
+            } else {
+                let last = m.last();
+                if conflict > last {
+                    st[S_MAPP_PURE_APPEND] += 1;
+                } else if conflict > m.offset {
+                    st[S_TRUNC_UNSTABLE] += 1;
+                } else if conflict == m.offset {
+                    st[S_TRUNC_AT_OFFSET] += 1;
+                } else {
+                    st[S_TRUNC_STABLE] += 1;
+                }
+                m.truncate_from(conflict);
+                for t in &terms[(conflict - pi - 1) as usize..] {
+                    m.ents.push(*t);
+                }
+                if conflict < m.offset {
+                    m.offset = conflict;
+                }
+                if m.persisted > conflict - 1 {
+                    m.persisted = conflict - 1;
+                    st[S_PERSISTED_LOWERED] += 1;
+                }
+            }
+            let last_new = pi + n as u64;
+            let to = c.min(last_new);
+            if to > m.committed {
+                m.committed = to;
+                st[S_MAPP_COMMIT] += 1;
+            }
+            Ret::OptPair(Some((conflict, last_new)))
+        }
+        Op::CommitTo(i) => {
+            if i as u64 > m.committed {
+                m.committed = i as u64;
+            }
+            Ret::Unit
+        }
+        Op::MaybeCommit(i, t) => {
+            let (i, t) = (i as u64, t as u64);
+            if i > m.committed && m.term(i) == t {
+                m.committed = i;
+                Ret::Bool(true)
+            } else {
+                Ret::Bool(false)
+            }
+        }
+        Op::Ready => {
+            let last = m.last();
+            let snap = if m.pending_snap { Some((m.snap_i, m.snap_t)) } else { None };
+            let ents: Vec<Entry> = (m.offset..=last).map(|i| mk_entry(i, m.term(i))).collect();
+            if let Some((i, t)) = snap {
+                m.st_snap_i = i;
+                m.st_snap_t = t;
+                m.st_ents.clear();
+                m.pending_snap = false;
+                st[S_READY_SNAP] += 1;
+                if !ents.is_empty() {
+                    st[S_READY_SNAP_AND_ENTS] += 1;
+                }
+            }
+            let mut rec = Rec { snap, last: None };
+            if !ents.is_empty() {
+                if m.offset <= m.st_last() {
+                    st[S_READY_OVERWRITE] += 1;
+                }
+                m.st_ents.truncate((m.offset - m.st_snap_i - 1) as usize);
+                for e in &ents {
+                    m.st_ents.push(e.term);
+                }
+                rec.last = Some((last, m.term(last)));
+                m.offset = last + 1;
+            }
+            m.queue.push(rec);
+            Ret::Ready(snap, ents)
+        }
+        Op::Persist(k) => {
+            let (snap_index, index, term) = Model::fold(&m.queue.as_slice()[..k as usize]);
+            m.queue.drop_front(k as usize);
+            let mut rs = None;
+            let mut re = None;
+            if snap_index != 0 {
+                if snap_index > m.persisted {
+                    m.persisted = snap_index;
+                    st[S_PSNAP_OK] += 1;
+                    rs = Some(true);
+                } else {
+                    st[S_PSNAP_NOOP] += 1;
+                    rs = Some(false);
+                }
+            }
+            if index != 0 {
+                // documented rule: only forward below the first index that still awaits a write
+                let first_update = if m.pending_snap { m.snap_i } else { m.offset };
+                if m.pending_snap {
+                    st[S_PERSIST_SNAP_PENDING] += 1;
+                }
+                if index <= m.persisted {
+                    st[S_PERSIST_OLD] += 1;
+                    re = Some(false);
+                } else if index >= first_update {
+                    st[S_PERSIST_STALE_OFFSET] += 1;
+                    re = Some(false);
+                } else if m.st_term(index) != Some(term) {
+                    st[S_PERSIST_STALE_TERM] += 1;
+                    re = Some(false);
+                } else {
+                    m.persisted = index;
+                    st[S_PERSIST_OK] += 1;
+                    re = Some(true);
+                }
+            }
+            Ret::Persist(rs, re)
+        }
+        Op::Restore(i, t) => {
+            if m.pending_snap {
+                st[S_RESTORE_OVER_PENDING] += 1;
+            }
+            if m.persisted > m.committed {
+                m.persisted = m.committed;
+                st[S_RESTORE_LOWERED] += 1;
+            }
+            m.committed = i as u64;
+            m.snap_i = i as u64;
+            m.snap_t = t as u64;
+            m.ents.clear();
+            m.offset = i as u64 + 1;
+            m.pending_snap = true;
+            st[S_RESTORE] += 1;
+            Ret::Unit
+        }
+        Op::AppliedTo(i) => {
+            if i > 0 {
+                m.applied = i as u64;
+            }
+            Ret::Unit
+        }
+        Op::Compact(i) => {
+            let i = i as u64;
+            let t = m.st_term(i).expect("compact inside storage");
+            m.st_ents.drop_front((i - m.st_snap_i) as usize);
+            m.st_snap_i = i;
+            m.st_snap_t = t;
+            if !m.pending_snap {
+                let lt = m.term(i);
+                m.ents.drop_front((i - m.snap_i) as usize);
+                m.snap_i = i;
+                m.snap_t = lt;
+            } else {
+                st[S_COMPACT_UNDER_SNAP] += 1;
+            }
+            st[S_COMPACT] += 1;
+            Ret::Unit
+        }
+    }
+}
+
+// ------------------------------------------------------------------------------------------
+// the implementation side
+// ------------------------------------------------------------------------------------------
+
+type Log = RaftLog<Store>;
+
+fn new_log() -> Log {
+    let store = Store::new(ConfState::default());
+    let logger = slog::Logger::root(slog::Discard, slog::o!());
+    RaftLog::new(store, logger, &Config::new(1))
+}
+
+/// Applies `op` to the real RaftLog exactly the way Raft / RawNode / the application would.
+/// `before` is only consulted for harness bookkeeping (the ready records).
+fn apply_impl(log: &mut Log, op: &Op, before: &Model) -> Ret {
+    match *op {
+        Op::Append { k, t } => {
+            let last = log.last_index();
+            let ents = [mk_entry(last + 1, t as u64), mk_entry(last + 2, t as u64)];
+            Ret::U64(log.append(&ents[..k as usize]))
+        }
+        Op::MaybeAppend { pi, pt, c, n, ts } => {
+            let ents = [mk_entry(pi as u64 + 1, ts[0] as u64), mk_entry(pi as u64 + 2, ts[1] as u64)];
+            Ret::OptPair(log.maybe_append(pi as u64, pt as u64, c as u64, &ents[..n as usize]))
+        }
+        Op::CommitTo(i) => {
+            log.commit_to(i as u64);
+            Ret::Unit
+        }
+        Op::MaybeCommit(i, t) => Ret::Bool(log.maybe_commit(i as u64, t as u64)),
+        Op::Ready => {
+            // RawNode::ready
+            let snap = log.unstable_snapshot().clone();
+            let ents = log.unstable_entries().to_vec();
+            // the application writes snapshot, then entries
+            if let Some(s) = &snap {
+                log.mut_store().apply_op(&WriteOp::Snapshot(s.clone()));
+            }
+            if !ents.is_empty() {
+                log.mut_store().apply_op(&WriteOp::Entries(ents.clone()));
+            }
+            // RawNode::commit_ready
+            if let Some(s) = &snap {
+                log.stable_snap(s.get_metadata().index);
+            }
+            if let Some(e) = ents.last() {
+                log.stable_entries(e.index, e.term);
+            }
+            Ret::Ready(
+                snap.map(|s| (s.get_metadata().index, s.get_metadata().term)),
+                ents,
+            )
+        }
+        Op::Persist(k) => {
+            // RawNode::on_persist_ready
+            let (snap_index, index, term) = Model::fold(&before.queue.as_slice()[..k as usize]);
+            let mut rs = None;
+            let mut re = None;
+            if snap_index != 0 {
+                rs = Some(log.maybe_persist_snap(snap_index));
+            }
+            if index != 0 {
+                re = Some(log.maybe_persist(index, term));
+            }
+            Ret::Persist(rs, re)
+        }
+        Op::Restore(i, t) => {
+            log.restore(mk_snapshot(i as u64, t as u64));
+            Ret::Unit
+        }
+        Op::AppliedTo(i) => {
+            #[allow(deprecated)]
+            log.applied_to(i as u64);
+            Ret::Unit
+        }
+        Op::Compact(i) => {
+            log.mut_store().apply_op(&WriteOp::Compact(i as u64));
+            Ret::Unit
+        }
+    }
+}
+
+/// Stack buffer for the canonical serialisation (values are tiny; large ones are escaped).
+struct KB {
+    buf: [u8; 512],
+    n: usize,
+}
+
+impl KB {
+    #[inline(always)]
+    fn u(&mut self, v: u64) {
+        if v < 0xfe && self.n < 500 {
+            self.buf[self.n] = v as u8;
+            self.n += 1;
+        } else if self.n < 500 {
+            self.buf[self.n] = 0xff;
+            self.buf[self.n + 1..self.n + 9].copy_from_slice(&v.to_le_bytes());
+            self.n += 9;
+        } else {
+            // overflow (never with the bounds in use): fold into the last word
+            let mut x = [0u8; 8];
+            x.copy_from_slice(&self.buf[504..512]);
+            let y = crate::util::mix(u64::from_le_bytes(x), v);
+            self.buf[504..512].copy_from_slice(&y.to_le_bytes());
+        }
+    }
+    #[inline]
+    fn entry(&mut self, e: &Entry) {
+        self.u(e.index);
+        self.u(e.term);
+        let (ty, dl, cl) = (e.get_entry_type() as u64, e.data.len() as u64, e.context.len() as u64);
+        if ty < 4 && dl < 8 && cl < 4 {
+            self.u((ty << 5) | (dl << 2) | cl); // < 128
+        } else {
+            self.u(0xfd);
+            self.u(ty);
+            self.u(dl);
+            self.u(cl);
+        }
+        for x in e.data.iter() {
+            self.u(*x as u64);
+        }
+        for x in e.context.iter() {
+            self.u(*x as u64);
+        }
+    }
+    fn cs(&mut self, c: &ConfState) {
+        for v in [c.get_voters(), c.get_learners(), c.get_voters_outgoing(), c.get_learners_next()] {
+            self.u(v.len() as u64);
+            for x in v {
+                self.u(*x);
+            }
+        }
+        self.u(c.auto_leave as u64);
+    }
+    fn key(&self) -> u128 {
+        // two lanes of multiply-fold (128-bit product folded to 64 bits) over 8-byte words
+        #[inline(always)]
+        fn fold(x: u64, y: u64) -> u64 {
+            let p = (x as u128).wrapping_mul(y as u128);
+            (p as u64) ^ ((p >> 64) as u64)
+        }
+        let mut a = 0x9e3779b97f4a7c15u64 ^ self.n as u64;
+        let mut b = 0xbf58476d1ce4e5b9u64;
+        let end = if self.n > 500 { 512 } else { self.n };
+        let mut p = 0;
+        while p < end {
+            let mut x = [0u8; 8];
+            let l = (end - p).min(8);
+            x[..l].copy_from_slice(&self.buf[p..p + l]);
+            let v = u64::from_le_bytes(x);
+            a = fold(a ^ v, 0xa0761d6478bd642f);
+            b = fold(b.rotate_left(23) ^ v, 0xe7037ed1a0b428db).wrapping_add(a);
+            p += 8;
+        }
+        a = crate::util::mix(a, b);
+        b = crate::util::mix(b, a);
+        ((a as u128) << 64) | b as u128
+    }
+}
+
+/// Canonical key of L: every RaftLog field (store and unstable included) and the model of
+/// the log and of the storage.  The full pair is (this key, the ready records), see `pkey`.
+fn lkey_of(log: &Log, m: &Model) -> u128 {
+    let mut w = KB { buf: [0; 512], n: 0 };
+    w.u(log.committed);
+    w.u(log.persisted);
+    w.u(log.applied);
+    w.u(log.max_apply_unpersisted_log_limit);
+    w.u(log.unstable.offset);
+    w.u(log.unstable.entries_size as u64);
+    w.u(log.unstable.entries.len() as u64);
+    for e in &log.unstable.entries {
+        w.entry(e);
+    }
+    match &log.unstable.snapshot {
+        Some(s) => {
+            w.u(1);
+            let md = s.get_metadata();
+            w.u(md.index);
+            w.u(md.term);
+            w.cs(md.get_conf_state());
+            w.u(s.data.len() as u64);
+            for x in s.data.iter() {
+                w.u(*x as u64);
+            }
+        }
+        None => w.u(0),
+    }
+    let s = &log.store;
+    w.u(s.hs.term);
+    w.u(s.hs.vote);
+    w.u(s.hs.commit);
+    w.u(s.snap_index);
+    w.u(s.snap_term);
+    w.u(s.entries.len() as u64);
+    for e in &s.entries {
+        w.entry(e);
+    }
+    w.u(s.app.applied);
+    w.cs(&s.app.conf);
+    w.u(s.app.sm);
+    w.u(s.log_unavailable_once.get() as u64);
+    // model
+    w.u(0xee);
+    w.u(m.snap_i);
+    w.u(m.snap_t);
+    w.u(m.ents.len() as u64);
+    for t in m.ents.as_slice() {
+        w.u(*t);
+    }
+    w.u(m.offset);
+    w.u(m.pending_snap as u64);
+    w.u(m.committed);
+    w.u(m.persisted);
+    w.u(m.applied);
+    w.u(m.st_snap_i);
+    w.u(m.st_snap_t);
+    w.u(m.st_ents.len() as u64);
+    for t in m.st_ents.as_slice() {
+        w.u(*t);
+    }
+    w.key()
+}
+
+fn describe(log: &Log) -> String {
+    let st: Vec<String> = log.store.entries.iter().map(|e| format!("{}:{}", e.index, e.term)).collect();
+    let un: Vec<String> = log.unstable.entries.iter().map(|e| format!("{}:{}", e.index, e.term)).collect();
+    format!(
+        "impl{{committed={} persisted={} applied={} offset={} unstable=[{}] unstable_snap={:?} store{{dummy={}:{} ents=[{}]}}}}",
+        log.committed,
+        log.persisted,
+        log.applied,
+        log.unstable.offset,
+        un.join(","),
+        log.unstable.snapshot.as_ref().map(|s| (s.get_metadata().index, s.get_metadata().term)),
+        log.store.snap_index,
+        log.store.snap_term,
+        st.join(","),
+    )
+}
+
+fn describe_model(m: &Model) -> String {
+    format!(
+        "model{{dummy={}:{} terms={:?} offset={} pending_snap={} committed={} persisted={} applied={} storage{{dummy={}:{} terms={:?}}} records={:?}}}",
+        m.snap_i, m.snap_t, m.ents, m.offset, m.pending_snap, m.committed, m.persisted, m.applied,
+        m.st_snap_i, m.st_snap_t, m.st_ents, m.queue
+    )
+}
+
+type Viol = (String, String);
+
+fn is_compacted<T>(r: &Result<T, Error>) -> bool {
+    matches!(r, Err(Error::Store(StorageError::Compacted)))
+}
+
+/// Compares every observer of `log` with the model and evaluates the state invariants.
+/// Must be called inside `guarded`.
+fn observe(log: &mut Log, m: &Model, b: &Bounds, st: &mut Stats) -> Result<(), Viol> {
+    let r = observe_inner(log, m, b, st);
+    log.max_apply_unpersisted_log_limit = 0;
+    r
+}
+
+fn observe_inner(log: &mut Log, m: &Model, b: &Bounds, st: &mut Stats) -> Result<(), Viol> {
+    macro_rules! bad {
+        ($k:expr, $($a:tt)*) => {
+            return Err((format!("observer-mismatch:{}", $k), format!($($a)*)))
+        };
+    }
+    macro_rules! inv {
+        ($k:expr, $($a:tt)*) => {
+            return Err((format!("invariant:{}", $k), format!($($a)*)))
+        };
+    }
+    if let Some(e) = m.self_check() {
+        return Err(("model-self-check".into(), e));
+    }
+    let first = m.first();
+    let last = m.last();
+    let ctx = || GetEntriesContext::empty(false);
+
+    // ---- plain fields
+    if log.committed != m.committed {
+        bad!("committed", "committed {} expected {}", log.committed, m.committed);
+    }
+    if log.persisted != m.persisted {
+        bad!("persisted", "persisted {} expected {}", log.persisted, m.persisted);
+    }
+    if log.applied != m.applied || log.applied() != m.applied {
+        bad!("applied", "applied {} expected {}", log.applied, m.applied);
+    }
+    if log.unstable.offset != m.offset {
+        bad!("unstable-offset", "unstable.offset {} expected {}", log.unstable.offset, m.offset);
+    }
+    // ---- index / term observers
+    if log.first_index() != first {
+        bad!("first_index", "first_index {} expected {}", log.first_index(), first);
+    }
+    if log.last_index() != last {
+        bad!("last_index", "last_index {} expected {}", log.last_index(), last);
+    }
+    for i in 0..=last + 2 {
+        match log.term(i) {
+            Ok(t) if t == m.term(i) => {}
+            other => bad!("term", "term({}) = {:?} expected Ok({})", i, other, m.term(i)),
+        }
+    }
+    if log.last_term() != m.term(last) {
+        bad!("last_term", "last_term {} expected {}", log.last_term(), m.term(last));
+    }
+    for i in 0..=last + 2 {
+        for t in 0..=b.t {
+            let e = m.term(i) == t;
+            if log.match_term(i, t) != e {
+                bad!("match_term", "match_term({}, {}) = {} expected {}", i, t, !e, e);
+            }
+        }
+    }
+    let mlt = m.term(last);
+    for i in 0..=b.n + 1 {
+        for t in 0..=b.t {
+            let e = t > mlt || (t == mlt && i >= last);
+            if log.is_up_to_date(i, t) != e {
+                bad!("is_up_to_date", "is_up_to_date({}, {}) = {} expected {}", i, t, !e, e);
+            }
+        }
+    }
+    let ci = log.commit_info();
+    if ci != (m.committed, m.term(m.committed)) {
+        bad!("commit_info", "commit_info {:?} expected {:?}", ci, (m.committed, m.term(m.committed)));
+    }
+
+    // ---- the unstable part
+    let all: Vec<Entry> = (first..=last).map(|i| mk_entry(i, m.term(i))).collect();
+    let sizes: Vec<u64> = (first..=last).map(|i| esize(i, m.term(i))).collect();
+    let un_exp = &all[(m.offset - first) as usize..];
+    if log.unstable_entries() != un_exp {
+        bad!("unstable_entries", "unstable_entries {:?} expected {:?}", brief(log.unstable_entries()), brief(un_exp));
+    }
+    let us = log.unstable_snapshot().as_ref().map(|s| (s.get_metadata().index, s.get_metadata().term));
+    let us_exp = if m.pending_snap { Some((m.snap_i, m.snap_t)) } else { None };
+    if us != us_exp {
+        bad!("unstable_snapshot", "unstable_snapshot {:?} expected {:?}", us, us_exp);
+    }
+    {
+        let u = &log.unstable;
+        let e_first = if m.pending_snap { Some(m.snap_i + 1) } else { None };
+        if u.maybe_first_index() != e_first {
+            bad!("unstable.maybe_first_index", "{:?} expected {:?}", u.maybe_first_index(), e_first);
+        }
+        let e_last = if !un_exp.is_empty() {
+            Some(last)
+        } else if m.pending_snap {
+            Some(m.snap_i)
+        } else {
+            None
+        };
+        if u.maybe_last_index() != e_last {
+            bad!("unstable.maybe_last_index", "{:?} expected {:?}", u.maybe_last_index(), e_last);
+        }
+        for i in 0..=last + 2 {
+            let e = if i >= m.offset {
+                if i <= last {
+                    Some(m.term(i))
+                } else {
+                    None
+                }
+            } else if m.pending_snap && i == m.snap_i {
+                Some(m.snap_t)
+            } else {
+                None
+            };
+            if u.maybe_term(i) != e {
+                bad!("unstable.maybe_term", "unstable.maybe_term({}) = {:?} expected {:?} (offset {})", i, u.maybe_term(i), e, m.offset);
+            }
+        }
+        for lo in m.offset..=last + 1 {
+            for hi in lo..=last + 1 {
+                let e = &all[(lo - first) as usize..(hi - first) as usize];
+                if u.slice(lo, hi) != e {
+                    bad!("unstable.slice", "unstable.slice({}, {}) = {:?} expected {:?}", lo, hi, brief(u.slice(lo, hi)), brief(e));
+                }
+            }
+        }
+        let sz: usize = u.entries.iter().map(raft::util::entry_approximate_size).sum();
+        if u.entries_size != sz {
+            inv!("unstable-entries-size", "unstable.entries_size {} but the entries sum to {}", u.entries_size, sz);
+        }
+    }
+
+    // ---- storage content as the model of the storage predicts it
+    {
+        let s = &log.store;
+        let got: Vec<u64> = s.entries.iter().map(|e| e.term).collect();
+        if s.snap_index != m.st_snap_i || s.snap_term != m.st_snap_t || got != m.st_ents.as_slice() {
+            bad!(
+                "storage-content",
+                "storage dummy {}:{} terms {:?}, expected dummy {}:{} terms {:?}",
+                s.snap_index, s.snap_term, got, m.st_snap_i, m.st_snap_t, m.st_ents
+            );
+        }
+        for (p, e) in s.entries.iter().enumerate() {
+            let want = mk_entry(s.snap_index + 1 + p as u64, m.st_ents.a[p]);
+            if *e != want {
+                bad!("storage-content", "storage entry {:?} expected {:?}", brief(std::slice::from_ref(e)), brief(&[want]));
+            }
+        }
+    }
+
+    // ---- snapshot(): a pending snapshot that is recent enough is served from unstable
+    for req in 0..=last + 1 {
+        match log.snapshot(req, 0) {
+            Ok(sn) => {
+                let got = (sn.get_metadata().index, sn.get_metadata().term);
+                if m.pending_snap && m.snap_i >= req {
+                    if got != (m.snap_i, m.snap_t) {
+                        bad!("snapshot", "snapshot({}) = {:?} expected the pending snapshot {:?}", req, got, (m.snap_i, m.snap_t));
+                    }
+                } else if got.0 < req {
+                    bad!("snapshot", "snapshot({}) returned the older snapshot {:?}", req, got);
+                }
+            }
+            Err(e) => {
+                if m.pending_snap && m.snap_i >= req {
+                    bad!("snapshot", "snapshot({}) = Err({:?}) expected the pending snapshot {:?}", req, e, (m.snap_i, m.snap_t));
+                }
+            }
+        }
+    }
+    if log.all_entries() != all {
+        bad!("all_entries", "all_entries {:?} expected {:?}", brief(&log.all_entries()), brief(&all));
+    }
+
+    // ---- slice / entries, every range x limit
+    for lo in 0..=last + 1 {
+        if lo < first {
+            for hi in [lo, last + 1] {
+                let r = log.slice(lo, hi, None, ctx());
+                if !is_compacted(&r) {
+                    bad!("slice-compacted", "slice({}, {}) below first_index {} = {:?} expected Err(Compacted)", lo, hi, first, r.map(|v| brief(&v)));
+                }
+                st[S_COMPACTED_ERR] += 1;
+            }
+            let r = log.entries(lo, None, ctx());
+            let want_compacted = lo <= last; // idx > last is answered with an empty vector first
+            if want_compacted && !is_compacted(&r) {
+                bad!("entries-compacted", "entries({}) below first_index {} = {:?} expected Err(Compacted)", lo, first, r.map(|v| brief(&v)));
+            }
+            if !want_compacted && !matches!(&r, Ok(v) if v.is_empty()) {
+                bad!("entries", "entries({}) beyond last {} = {:?} expected empty", lo, last, r.map(|v| brief(&v)));
+            }
+            continue;
+        }
+        for hi in lo..=last + 1 {
+            let full = &all[(lo - first) as usize..(hi - first) as usize];
+            let sz = &sizes[(lo - first) as usize..(hi - first) as usize];
+            let mut lims: Vec<Option<u64>> = vec![None];
+            if !full.is_empty() {
+                lims.push(Some(0));
+                lims.push(Some(sz[0]));
+                if sz.len() >= 2 {
+                    lims.push(Some(sz[0] + sz[1] - 1));
+                    lims.push(Some(sz[0] + sz[1]));
+                }
+                lims.push(Some(u64::MAX));
+            }
+            for lim in lims {
+                let n = prefix_len(sz, lim);
+                let exp = &full[..n];
+                match log.slice(lo, hi, lim, ctx()) {
+                    Ok(v) if v == exp => {}
+                    other => bad!(
+                        "slice",
+                        "slice({}, {}, {:?}) = {:?} expected {:?} (offset {}, first {})",
+                        lo, hi, lim, other.map(|v| brief(&v)), brief(exp), m.offset, first
+                    ),
+                }
+                if n < full.len() {
+                    st[S_LIMITED] += 1;
+                }
+                if lo < m.offset && hi > m.offset {
+                    if lo + n as u64 > m.offset {
+                        st[S_STITCHED] += 1;
+                    } else if n < full.len() {
+                        st[S_SHORT_PAGE] += 1;
+                    }
+                }
+                if hi == last + 1 {
+                    match log.entries(lo, lim, ctx()) {
+                        Ok(v) if v == exp => {}
+                        other => bad!(
+                            "entries",
+                            "entries({}, {:?}) = {:?} expected {:?}",
+                            lo, lim, other.map(|v| brief(&v)), brief(exp)
+                        ),
+                    }
+                }
+            }
+        }
+    }
+    match log.entries(last + 2, None, ctx()) {
+        Ok(v) if v.is_empty() => {}
+        other => bad!("entries", "entries({}) beyond last = {:?} expected empty", last + 2, other.map(|v| brief(&v))),
+    }
+
+    // ---- conflict search
+    for s in 1..=last + 1 {
+        for t1 in 1..=b.t {
+            for t2 in 0..=b.t {
+                // t2 == 0: one-entry probe; otherwise two entries (any order of terms)
+                let terms: Vec<u64> = if t2 == 0 { vec![t1] } else { vec![t1, t2] };
+                let probe: Vec<Entry> = terms.iter().enumerate().map(|(p, t)| mk_entry(s + p as u64, *t)).collect();
+                let e = m.find_conflict(s, &terms);
+                let g = log.find_conflict(&probe);
+                if g != e {
+                    bad!("find_conflict", "find_conflict({:?}) = {} expected {}", brief(&probe), g, e);
+                }
+            }
+        }
+    }
+    if log.find_conflict(&[]) != 0 {
+        bad!("find_conflict", "find_conflict([]) != 0");
+    }
+    for i in 0..=last {
+        for t in 0..=b.t {
+            // largest j <= i with term(j) <= t over the total term function (0 outside the log)
+            let mut j = i;
+            while m.term(j) > t {
+                j -= 1; // term(0) is 0 or the dummy's own term only if the dummy is 0:0
+            }
+            let e = (j, Some(m.term(j)));
+            let g = log.find_conflict_by_term(i, t);
+            if g != e {
+                bad!("find_conflict_by_term", "find_conflict_by_term({}, {}) = {:?} expected {:?}", i, t, g, e);
+            }
+            if j + 1 < first {
+                st[S_FCBT_BELOW_DUMMY] += 1;
+            }
+        }
+    }
+    for i in last + 1..=last + 2 {
+        let g = log.find_conflict_by_term(i, 1);
+        if g != (i, None) {
+            bad!("find_conflict_by_term", "find_conflict_by_term({}, 1) beyond last = {:?} expected ({}, None)", i, g, i);
+        }
+    }
+
+    // ---- entries for the application: committed and persisted (+limit), after since
+    for extra in [0u64, 1, 100] {
+        log.max_apply_unpersisted_log_limit = extra;
+        let l: &Log = log;
+        let upper = m.committed.min(m.persisted + extra);
+        for since in 0..=last + 1 {
+            let lo = (since + 1).max(first);
+            let hi = upper + 1;
+            let has = hi > lo;
+            if l.has_next_entries_since(since) != has {
+                bad!("has_next_entries_since", "has_next_entries_since({}) = {} expected {} (limit {})", since, !has, has, extra);
+            }
+            let lims: Vec<Option<u64>> = if has {
+                let s0 = sizes[(lo - first) as usize];
+                vec![None, Some(0), Some(s0), Some(s0 + 4), Some(u64::MAX)]
+            } else {
+                vec![None]
+            };
+            for lim in lims {
+                let g = l.next_entries_since(since, lim);
+                if has {
+                    let full = &all[(lo - first) as usize..(hi - first) as usize];
+                    let n = prefix_len(&sizes[(lo - first) as usize..(hi - first) as usize], lim);
+                    if g.as_deref() != Some(&full[..n]) {
+                        bad!("next_entries_since", "next_entries_since({}, {:?}) = {:?} expected {:?} (limit {})", since, lim, g.map(|v| brief(&v)), brief(&full[..n]), extra);
+                    }
+                } else if g.is_some() {
+                    bad!("next_entries_since", "next_entries_since({}, {:?}) = {:?} expected None (limit {})", since, lim, g.map(|v| brief(&v)), extra);
+                }
+            }
+        }
+        let lo = (m.applied + 1).max(first);
+        let has = upper + 1 > lo;
+        if l.has_next_entries() != has {
+            bad!("has_next_entries", "has_next_entries = {} expected {} (limit {})", !has, has, extra);
+        }
+        let g = l.next_entries(None);
+        let e = if has { Some(&all[(lo - first) as usize..(upper + 1 - first) as usize]) } else { None };
+        if g.as_deref() != e {
+            bad!("next_entries", "next_entries = {:?} expected {:?} (limit {})", g.map(|v| brief(&v)), e.map(brief), extra);
+        }
+    }
+
+    log.max_apply_unpersisted_log_limit = 0;
+    // ---- invariants of the property, on the implementation
+    if !(log.applied <= log.committed && log.committed <= log.last_index()) {
+        inv!("applied-le-committed-le-last", "applied {} committed {} last {}", log.applied, log.committed, log.last_index());
+    }
+    if log.applied > log.persisted {
+        inv!("applied-le-persisted", "applied {} > persisted {} with max_apply_unpersisted_log_limit = 0", log.applied, log.persisted);
+    }
+    if log.persisted >= log.unstable.offset {
+        inv!("persisted-lt-offset", "persisted {} >= unstable.offset {}", log.persisted, log.unstable.offset);
+    }
+    let sl = log.store.last_index().unwrap();
+    if log.persisted > sl {
+        inv!("persisted-le-storage-last", "persisted {} > storage last index {}", log.persisted, sl);
+    }
+    if log.persisted + 1 >= log.first_index() {
+        let a = log.store.term(log.persisted).ok();
+        let bt = log.term(log.persisted).ok();
+        if a.is_none() || a != bt {
+            inv!("persisted-term-in-storage", "storage term at persisted {} is {:?}, the log's is {:?}", log.persisted, a, bt);
+        }
+    }
+    for (p, e) in log.unstable.entries.iter().enumerate() {
+        if e.index != log.unstable.offset + p as u64 {
+            inv!("unstable-contiguous", "unstable entry {} at position {} with offset {}", e.index, p, log.unstable.offset);
+        }
+    }
+    Ok(())
+}
+
+fn brief(v: &[Entry]) -> Vec<String> {
+    v.iter().map(|e| format!("{}:{}/{}", e.index, e.term, e.data.len())).collect()
+}
+
+/// (term, payload) of every index 0..=committed as the implementation reports it.
+fn committed_prefix(log: &Log) -> Vec<Option<u64>> {
+    let dummy = log.first_index() - 1;
+    (0..=log.committed)
+        .map(|i| if i < dummy { None } else { log.term(i).ok() })
+        .collect()
+}
+
+/// One transition on a fresh pair: implementation under `guarded`, model, return values,
+/// transition invariants.  Returns the successor or the violation.
+fn step(
+    log: &Log,
+    m: &Model,
+    op: &Op,
+    pre_prefix: &[Option<u64>],
+    st: &mut Stats,
+) -> Result<(Log, Model), Viol> {
+    let mut m2 = *m;
+    let exp = apply_model(&mut m2, op, st);
+    step_with(log, m, op, pre_prefix, m2, exp)
+}
+
+fn step_with(
+    log: &Log,
+    m: &Model,
+    op: &Op,
+    pre_prefix: &[Option<u64>],
+    m2: Model,
+    exp: Ret,
+) -> Result<(Log, Model), Viol> {
+    let mut l2 = log.clone();
+    let got = match guarded(|| apply_impl(&mut l2, op, m)) {
+        Ok(r) => r,
+        Err((msg, loc)) => {
+            return Err((
+                format!("panic:{}", op.name()),
+                format!("{:?} panicked: {} @ {}", op, msg, loc),
+            ))
+        }
+    };
+    if got != exp {
+        return Err((
+            format!("return-mismatch:{}", op.name()),
+            format!("{:?} returned {} expected {}", op, show_ret(&got), show_ret(&exp)),
+        ));
+    }
+    if l2.committed < log.committed {
+        return Err((
+            "invariant:committed-decreased".into(),
+            format!("{:?}: committed {} -> {}", op, log.committed, l2.committed),
+        ));
+    }
+    let changed = guarded(|| {
+        let dummy = l2.first_index() - 1;
+        for (i, a) in pre_prefix.iter().enumerate() {
+            let i = i as u64;
+            if i < dummy {
+                continue;
+            }
+            if let (Some(a), Ok(bq)) = (a, l2.term(i)) {
+                if *a != bq {
+                    return Some((i, *a, bq));
+                }
+            }
+        }
+        None
+    });
+    match changed {
+        Ok(None) => {}
+        Ok(Some((i, a, bq))) => {
+            return Err((
+                "invariant:committed-entry-changed".into(),
+                format!("{:?}: entry {} at or below committed {} changed term {} -> {}", op, i, log.committed, a, bq),
+            ))
+        }
+        Err((msg, loc)) => {
+            return Err((format!("panic:{}", op.name()), format!("term() after {:?} panicked: {} @ {}", op, msg, loc)))
+        }
+    }
+    Ok((l2, m2))
+}
+
+fn show_ret(r: &Ret) -> String {
+    match r {
+        Ret::Ready(s, e) => format!("Ready(snapshot {:?}, entries {:?})", s, brief(e)),
+        other => format!("{:?}", other),
+    }
+}
+
+// ------------------------------------------------------------------------------------------
+// exploration
+// ------------------------------------------------------------------------------------------
+//
+// A pair is (L, Q): L = (RaftLog state, model of the log and of the storage), Q = the FIFO of
+// ready records awaiting `on_persist_ready`.  Q lives in the harness only — RaftLog never
+// sees it; it merely determines which `maybe_persist_snap` / `maybe_persist` arguments can
+// still arrive.  The search is a level-synchronous BFS over all pairs (L, Q); the real code
+// is executed once per (L, operation-with-arguments) and the outcome (successor L', checked
+// return value, checked transition invariants) is reused for every Q that L is paired with.
+// RaftLog operations are functions of (RaftLog state, arguments) (re-validated at the end by
+// re-executing recorded paths from the initial pair), so this enumerates exactly the pairs
+// and transitions of the plain product search.
+
+/// The record FIFO in 32 bits: per record [snap index, snap term, last index, last term]
+/// (index 0 = absent), 3 + 2 bits each pair.
+#[derive(Clone, Copy, PartialEq, Eq, Debug, Default)]
+struct Q {
+    len: u8,
+    r: [[u8; 4]; 3],
+}
+
+impl Q {
+    fn to_sv(&self) -> SV<Rec, 4> {
+        let mut v = SV::new();
+        for k in 0..self.len as usize {
+            let r = self.r[k];
+            v.push(Rec {
+                snap: if r[0] != 0 { Some((r[0] as u64, r[1] as u64)) } else { None },
+                last: if r[2] != 0 { Some((r[2] as u64, r[3] as u64)) } else { None },
+            });
+        }
+        v
+    }
+    fn from_sv(v: &SV<Rec, 4>) -> Q {
+        let mut q = Q::default();
+        for r in v.as_slice() {
+            let (a, b) = r.snap.unwrap_or((0, 0));
+            let (c, d) = r.last.unwrap_or((0, 0));
+            q.r[q.len as usize] = [a as u8, b as u8, c as u8, d as u8];
+            q.len += 1;
+        }
+        q
+    }
+    fn bits(&self) -> u32 {
+        let mut x = self.len as u32;
+        for k in 0..3 {
+            let r = self.r[k];
+            x = (x << 10) | ((r[0] as u32) << 7) | ((r[1] as u32) << 5) | ((r[2] as u32) << 2) | r[3] as u32;
+        }
+        x
+    }
+    fn from_bits(mut x: u32) -> Q {
+        let mut q = Q::default();
+        for k in (0..3).rev() {
+            q.r[k] = [((x >> 7) & 7) as u8, ((x >> 5) & 3) as u8, ((x >> 2) & 7) as u8, (x & 3) as u8];
+            x >>= 10;
+        }
+        q.len = x as u8;
+        q
+    }
+    fn pop_front(&self, k: usize) -> Q {
+        let mut q = Q::default();
+        for j in k..self.len as usize {
+            q.r[q.len as usize] = self.r[j];
+            q.len += 1;
+        }
+        q
+    }
+    fn push(&self, rec: [u8; 4]) -> Q {
+        let mut q = *self;
+        q.r[q.len as usize] = rec;
+        q.len += 1;
+        q
+    }
+}
+
+/// A pair (L, Q) in 64 bits, exactly.
+#[inline]
+fn pkey(lid: u32, q: &Q) -> u64 {
+    ((lid as u64) << 32) | q.bits() as u64
+}
+
+#[inline]
+fn unpkey(k: u64) -> (u32, Q) {
+    ((k >> 32) as u32, Q::from_bits(k as u32))
+}
+
+const LAZY_READY: u32 = u32::MAX;
+
+/// Code of a queue-dependent operation on L: Ready, or the folded on_persist_ready arguments.
+#[inline]
+fn lazy_code(snap_index: u64, index: u64, term: u64) -> u32 {
+    ((snap_index as u32) << 16) | ((index as u32) << 8) | term as u32
+}
+
+/// `RaftLog<Store>` is not `Sync` only because `sim::Store` keeps two `Cell`s for the
+/// async-fetch simulation.  This engine never arms that simulation, so the cells are never
+/// written; shared references are used for reading and cloning only.
+struct Shared(Log);
+unsafe impl Sync for Shared {}
+impl std::ops::Deref for Shared {
+    type Target = Log;
+    fn deref(&self) -> &Log {
+        &self.0
+    }
+}
+
+struct LNode {
+    log: Shared,
+    /// model with an empty record queue
+    m: Model,
+    /// distinct successors (other than itself) under the queue-independent operations, with
+    /// the first operation leading there
+    succ: Vec<(Op, u32)>,
+    expanded: bool,
+}
+
+struct Interner {
+    shards: Vec<Mutex<std::collections::HashMap<u128, u32>>>,
+    next: std::sync::atomic::AtomicU32,
+}
+
+const SHARDS: usize = 1024;
+
+impl Interner {
+    fn new() -> Interner {
+        Interner {
+            shards: (0..SHARDS).map(|_| Mutex::new(std::collections::HashMap::new())).collect(),
+            next: std::sync::atomic::AtomicU32::new(0),
+        }
+    }
+    /// (id, newly created)
+    fn intern(&self, k: u128) -> (u32, bool) {
+        let mut s = self.shards[(k as usize) % SHARDS].lock().unwrap();
+        if let Some(id) = s.get(&k) {
+            return (*id, false);
+        }
+        let id = self.next.fetch_add(1, Ordering::Relaxed);
+        s.insert(k, id);
+        (id, true)
+    }
+    fn get(&self, k: u128) -> Option<u32> {
+        self.shards[(k as usize) % SHARDS].lock().unwrap().get(&k).copied()
+    }
+    fn len(&self) -> usize {
+        self.next.load(Ordering::Relaxed) as usize
+    }
+}
+
+struct PSeen {
+    shards: Vec<Mutex<HashSet<u64>>>,
+}
+
+impl PSeen {
+    fn new() -> PSeen {
+        PSeen { shards: (0..SHARDS).map(|_| Mutex::new(HashSet::new())).collect() }
+    }
+    fn insert(&self, k: u64) -> bool {
+        let h = crate::util::mix(k, 0x51ed27) as usize;
+        self.shards[h % SHARDS].lock().unwrap().insert(k)
+    }
+}
+
+struct Found {
+    kind: String,
+    detail: String,
+    /// product state in which the operation was executed
+    pid: u32,
+    op: Op,
+}
+
+#[derive(Default)]
+struct ExecOut {
+    /// (id, node) of the L pairs first reached here
+    new_nodes: Vec<(u32, LNode)>,
+    found: Vec<Found>,
+    stats: Stats,
+    executed: u64,
+    noops: u64,
+    /// eager expansions: (lid, successors)
+    succs: Vec<(u32, Vec<(Op, u32)>)>,
+    /// lazy results: (memo key, successor lid)
+    lazy: Vec<(u64, u32)>,
+}
+
+/// Registers the outcome of one real execution: interns the successor, observes it if new.
+fn settle(
+    r: Result<(Log, Model), Viol>,
+    pid: u32,
+    op: &Op,
+    b: &Bounds,
+    interner: &Interner,
+    out: &mut ExecOut,
+) -> Option<u32> {
+    match r {
+        Err((kind, detail)) => {
+            out.found.push(Found { kind, detail, pid, op: *op });
+            None
+        }
+        Ok((mut l2, mut m2)) => {
+            m2.queue.clear();
+            let lkey = lkey_of(&l2, &m2);
+            let (lid, new) = interner.intern(lkey);
+            if new {
+                match guarded(|| observe(&mut l2, &m2, b, &mut out.stats)) {
+                    Ok(Ok(())) => {}
+                    Ok(Err((kind, detail))) => out.found.push(Found {
+                        kind,
+                        detail: format!("after {:?}: {} | {} | {}", op, detail, describe(&l2), describe_model(&m2)),
+                        pid,
+                        op: *op,
+                    }),
+                    Err((msg, loc)) => out.found.push(Found {
+                        kind: "panic:observer".into(),
+                        detail: format!("an observer panicked after {:?}: {} @ {} | {}", op, msg, loc, describe(&l2)),
+                        pid,
+                        op: *op,
+                    }),
+                }
+                out.new_nodes.push((lid, LNode { log: Shared(l2), m: m2, succ: vec![], expanded: false }));
+            }
+            Some(lid)
+        }
+    }
+}
+
+/// Executes every queue-independent operation enabled in L on the real code.
+fn expand_l(lid: u32, node: &LNode, pid: u32, b: &Bounds, interner: &Interner, out: &mut ExecOut, rot: usize) {
+    let mut ops = enabled_ops(&node.m, b, &mut out.stats);
+    ops.retain(|o| !matches!(o, Op::Ready | Op::Persist(_)));
+    if rot > 0 && !ops.is_empty() {
+        let r = rot % ops.len();
+        ops.rotate_left(r);
+    }
+    let pre_prefix = guarded(|| committed_prefix(&node.log)).unwrap_or_default();
+    let node_key = lkey_of(&node.log, &node.m);
+    // Operations the model predicts to leave the pair unchanged are run one after the other
+    // on one scratch copy (each still is an execution of the real code from a state equal to
+    // this one); any anomaly there re-runs all of them individually for an exact report.
+    let mut scratch: Option<Log> = None;
+    let mut scratch_bad = false;
+    let mut noops: Vec<Op> = vec![];
+    let mut succ: Vec<(Op, u32)> = vec![];
+    let add = |op: &Op, l2: Option<u32>, succ: &mut Vec<(Op, u32)>| {
+        if let Some(l2) = l2 {
+            if l2 != lid && !succ.iter().any(|(_, x)| *x == l2) {
+                succ.push((*op, l2));
+            }
+        }
+    };
+    for op in ops.iter() {
+        let mut probe = node.m;
+        let exp = apply_model(&mut probe, op, &mut out.stats);
+        out.executed += 1;
+        if probe == node.m {
+            out.noops += 1;
+            noops.push(*op);
+            if scratch_bad {
+                continue;
+            }
+            let sc = scratch.get_or_insert_with(|| node.log.clone());
+            match guarded(|| apply_impl(sc, op, &node.m)) {
+                Ok(r) if r == exp => {}
+                _ => scratch_bad = true,
+            }
+            continue;
+        }
+        let r = step_with(&node.log, &node.m, op, &pre_prefix, probe, exp);
+        let l2 = settle(r, pid, op, b, interner, out);
+        add(op, l2, &mut succ);
+    }
+    if let Some(sc) = &scratch {
+        if !scratch_bad && lkey_of(sc, &node.m) != node_key {
+            scratch_bad = true;
+        }
+    }
+    if scratch_bad {
+        for op in noops {
+            let r = step(&node.log, &node.m, &op, &pre_prefix, &mut out.stats);
+            let l2 = settle(r, pid, &op, b, interner, out);
+            add(&op, l2, &mut succ);
+        }
+    }
+    out.succs.push((lid, succ));
+}
+
+/// The ready record RawNode would push for L.
+fn ready_rec(m: &Model) -> Option<[u8; 4]> {
+    let last = m.last();
+    if !(m.pending_snap || m.offset <= last) {
+        return None;
+    }
+    let mut r = [0u8; 4];
+    if m.pending_snap {
+        r[0] = m.snap_i as u8;
+        r[1] = m.snap_t as u8;
+    }
+    if m.offset <= last {
+        r[2] = last as u8;
+        r[3] = m.term(last) as u8;
+    }
+    Some(r)
+}
+
+/// Queue-dependent operations enabled in (L, Q): (operation, memo code, successor queue).
+fn lazy_ops(m: &Model, q: &Q, b: &Bounds, blocked: &mut u64, f: &mut dyn FnMut(Op, u32, Q)) {
+    if (q.len as usize) < b.q {
+        if let Some(rec) = ready_rec(m) {
+            f(Op::Ready, LAZY_READY, q.push(rec));
+        }
+    }
+    if q.len > 0 {
+        let sv = q.to_sv();
+        for k in 1..=q.len as usize {
+            let (snap_index, index, term) = Model::fold(&sv.as_slice()[..k]);
+            if snap_index > m.persisted && (snap_index > m.committed || snap_index >= m.offset) {
+                // documented fatal of maybe_persist_snap; unreachable under the legal orders
+                *blocked += 1;
+                continue;
+            }
+            f(Op::Persist(k as u8), lazy_code(snap_index, index, term), q.pop_front(k));
+        }
+    }
+}
+
+/// Runs `work(index, out)` for every index in 0..n on `threads` threads, dynamic chunks.
+fn par_for<T: Send + Default>(
+    n: usize,
+    chunk: usize,
+    threads: usize,
+    stop: &AtomicBool,
+    work: &(dyn Fn(std::ops::Range<usize>, &mut T) + Sync),
+) -> Vec<T> {
+    let next = std::sync::atomic::AtomicUsize::new(0);
+    let mut outs: Vec<(usize, T)> = std::thread::scope(|s| {
+        let hs: Vec<_> = (0..threads.min(n.div_ceil(chunk)).max(1))
+            .map(|_| {
+                s.spawn(|| {
+                    let mut res: Vec<(usize, T)> = vec![];
+                    loop {
+                        if stop.load(Ordering::Relaxed) {
+                            break;
+                        }
+                        let lo = next.fetch_add(chunk, Ordering::Relaxed);
+                        if lo >= n {
+                            break;
+                        }
+                        let mut out = T::default();
+                        work(lo..(lo + chunk).min(n), &mut out);
+                        res.push((lo, out));
+                    }
+                    res
+                })
+            })
+            .collect();
+        hs.into_iter().flat_map(|h| h.join().expect("worker thread")).collect()
+    });
+    outs.sort_by_key(|(lo, _)| *lo);
+    outs.into_iter().map(|(_, o)| o).collect()
+}
+
+fn path_to(parents: &[(u32, Op)], mut id: u32) -> Vec<Op> {
+    let mut p = vec![];
+    while id != 0 {
+        let (par, op) = parents[id as usize];
+        p.push(op);
+        id = par;
+    }
+    p.reverse();
+    p
+}
+
+fn ops_json(b: &Bounds, path: &[Op]) -> Value {
+    json!({
+        "bounds": {"n": b.n, "t": b.t, "q": b.q, "k": b.k},
+        "seq": path.iter().map(|o| o.to_json()).collect::<Vec<_>>(),
+    })
+}
+
+/// Startup check of the harness' own size arithmetic against protobuf.
+fn size_self_check(b: &Bounds) -> Option<String> {
+    use protobuf::Message;
+    for i in 1..=b.n + 1 {
+        for t in 1..=b.t {
+            let e = mk_entry(i, t);
+            if e.compute_size() as u64 != esize(i, t) {
+                return Some(format!("size of entry {}:{} is {} not {}", i, t, e.compute_size(), esize(i, t)));
+            }
+        }
+    }
+    None
+}
+
+pub fn run(tier: &str, seed: u64, budget_s: f64, threads: usize) -> CompResult {
+    let t0 = std::time::Instant::now();
+    let passes = bounds_for(tier);
+    let mut total: Option<CompResult> = None;
+    let mut per_pass = vec![];
+    for (n, b) in passes.iter().enumerate() {
+        let left = budget_s - t0.elapsed().as_secs_f64();
+        let mut r = if n > 0 && left < 20.0 {
+            let mut r = empty_result();
+            r.cap_hit = Some(format!("time budget: pass {:?} not started ({:.0}s left)", b, left));
+            r
+        } else {
+            run_bounds(*b, seed, left, threads)
+        };
+        per_pass.push(json!({
+            "bounds": {"max_index": b.n, "max_term": b.t, "max_outstanding_readies": b.q, "max_entries_per_append": b.k},
+            "pairs": r.states, "operations_executed": r.transitions, "exhaustive": r.exhaustive,
+            "cap_hit": r.cap_hit, "wall_s": (r.wall_s * 10.0).round() / 10.0, "counters": r.stats,
+        }));
+        let stop = !r.violations.is_empty();
+        total = Some(match total.take() {
+            None => r,
+            Some(mut t) => {
+                t.states += r.states;
+                t.transitions += r.transitions;
+                t.validated += r.validated;
+                t.exhaustive &= r.exhaustive;
+                if t.cap_hit.is_none() {
+                    t.cap_hit = r.cap_hit.take();
+                }
+                t.samples.truncate(2);
+                t.samples.extend(r.samples.drain(..).take(1));
+                t.violations.append(&mut r.violations);
+                t.nonvacuous &= r.nonvacuous;
+                // counters: sums over the passes
+                if let (Some(a), Some(bq)) = (t.stats.as_object_mut(), r.stats.as_object()) {
+                    for (k, v) in bq {
+                        if let (Some(x), Some(y)) = (a.get(k).and_then(|x| x.as_u64()), v.as_u64()) {
+                            a.insert(k.clone(), json!(x + y));
+                        }
+                    }
+                }
+                t
+            }
+        });
+        if stop {
+            break;
+        }
+    }
+    let mut t = total.unwrap_or_else(empty_result);
+    if let Some(a) = t.stats.as_object_mut() {
+        a.remove("bounds");
+        a.remove("bfs_levels");
+        a.remove("wall_s_collect_execute_resolve_append");
+        a.insert("passes".into(), json!(per_pass));
+    }
+    t.wall_s = t0.elapsed().as_secs_f64();
+    t
+}
+
+fn empty_result() -> CompResult {
+    CompResult {
+        engine: "raftlog".into(),
+        states: 0,
+        transitions: 0,
+        validated: 0,
+        exhaustive: false,
+        cap_hit: None,
+        samples: vec![],
+        stats: json!({}),
+        violations: vec![],
+        nonvacuous: true,
+        wall_s: 0.0,
+    }
+}
+
+fn run_bounds(b: Bounds, seed: u64, budget_s: f64, threads: usize) -> CompResult {
+    let t0 = std::time::Instant::now();
+    let threads = threads.max(1);
+    let mut res = empty_result();
+    res.nonvacuous = false;
+    if let Some(e) = size_self_check(&b) {
+        res.violations.push(("harness:size-arithmetic".into(), e, ops_json(&b, &[])));
+        return res;
+    }
+    let max_states: usize = 400_000_000;
+    // leave time for the determinism re-validation and the report
+    let deadline = (budget_s * 0.92 - 1.0).max(2.0);
+    let stop = AtomicBool::new(false);
+    let rot = seed as usize;
+    let over = || t0.elapsed().as_secs_f64() > deadline;
+
+    let interner = Interner::new();
+    let pseen = PSeen::new();
+    let mut lnodes: Vec<Option<LNode>> = vec![];
+    let mut memo: std::collections::HashMap<u64, u32> = std::collections::HashMap::new();
+    let mut pstates: Vec<u64> = vec![];
+    let mut parents: Vec<(u32, Op)> = vec![];
+    let mut stats: Stats = [0; NST];
+    let mut found: Vec<Found> = vec![];
+    let (mut executed, mut noops, mut presolved, mut blocked) = (0u64, 0u64, 0u64, 0u64);
+    let mut levels = 0u32;
+    let mut phase_s = [0f64; 4];
+
+    // ---- initial pair
+    {
+        let mut log0 = new_log();
+        let m0 = Model::new();
+        let lk = lkey_of(&log0, &m0);
+        let (lid, _) = interner.intern(lk);
+        match guarded(|| observe(&mut log0, &m0, &b, &mut stats)) {
+            Ok(Ok(())) => {}
+            Ok(Err((kind, detail))) => {
+                res.violations.push((kind, format!("initial state: {}", detail), ops_json(&b, &[])));
+            }
+            Err((msg, loc)) => {
+                res.violations.push(("panic:observer".into(), format!("initial state: {} @ {}", msg, loc), ops_json(&b, &[])));
+            }
+        }
+        lnodes.push(Some(LNode { log: Shared(log0), m: m0, succ: vec![], expanded: false }));
+        pstates.push(pkey(lid, &Q::default()));
+        parents.push((0, Op::Ready));
+        pseen.insert(pkey(lid, &Q::default()));
+    }
+    let mut level_lo = 0usize;
+    let place = |lnodes: &mut Vec<Option<LNode>>, new_nodes: Vec<(u32, LNode)>, total: usize| {
+        if lnodes.len() < total {
+            lnodes.resize_with(total, || None);
+        }
+        for (id, n) in new_nodes {
+            lnodes[id as usize] = Some(n);
+        }
+    };
+
+    'bfs: while level_lo < pstates.len() && res.violations.is_empty() {
+        levels += 1;
+        let level_hi = pstates.len();
+        let frontier = &pstates[level_lo..level_hi];
+
+        // ---- 1. which L pairs of this level still need their queue-independent operations
+        //         executed, which queue-dependent (L, arguments) are still unknown
+        let tp = std::time::Instant::now();
+        #[derive(Default)]
+        struct Need {
+            ls: Vec<(u32, u32)>,
+            lazy: Vec<(u64, u32, Op, Q)>,
+        }
+        let needs: Vec<Need> = {
+            let lnodes = &lnodes;
+            let memo = &memo;
+            par_for::<Need>(frontier.len(), 8192, threads, &stop, &|range, out| {
+                let mut seen_l: HashSet<u32> = HashSet::new();
+                let mut seen_z: HashSet<u64> = HashSet::new();
+                let mut bl = 0u64;
+                for x in range {
+                    let (lid, q) = unpkey(frontier[x]);
+                    let pid = (level_lo + x) as u32;
+                    let node = lnodes[lid as usize].as_ref().unwrap();
+                    if !node.expanded && seen_l.insert(lid) {
+                        out.ls.push((lid, pid));
+                    }
+                    lazy_ops(&node.m, &q, &b, &mut bl, &mut |op, code, _q2| {
+                        let k = ((lid as u64) << 32) | code as u64;
+                        if !memo.contains_key(&k) && seen_z.insert(k) {
+                            out.lazy.push((k, pid, op, q));
+                        }
+                    });
+                }
+            })
+        };
+        let mut todo_l: Vec<(u32, u32)> = vec![];
+        let mut todo_z: Vec<(u64, u32, Op, Q)> = vec![];
+        {
+            let mut sl: HashSet<u32> = HashSet::new();
+            let mut sz: HashSet<u64> = HashSet::new();
+            for n in needs {
+                for (lid, pid) in n.ls {
+                    if sl.insert(lid) {
+                        todo_l.push((lid, pid));
+                    }
+                }
+                for z in n.lazy {
+                    if sz.insert(z.0) {
+                        todo_z.push(z);
+                    }
+                }
+            }
+        }
+
+        phase_s[0] += tp.elapsed().as_secs_f64();
+        let tp = std::time::Instant::now();
+        // ---- 2. execute them on the real code
+        let outs: Vec<ExecOut> = {
+            let lnodes = &lnodes;
+            let interner = &interner;
+            let todo_l = &todo_l;
+            let todo_z = &todo_z;
+            let nl = todo_l.len();
+            par_for::<ExecOut>(nl + todo_z.len(), 16, threads, &stop, &|range, out| {
+                let tl = slog::Logger::root(slog::Discard, slog::o!());
+                for x in range {
+                    if x < nl {
+                        let (lid, pid) = todo_l[x];
+                        let src = lnodes[lid as usize].as_ref().unwrap();
+                        // thread-private logger handle: clones made in this thread touch no
+                        // reference count shared with other threads
+                        let mut log: Log = src.log.0.clone();
+                        log.unstable.logger = tl.clone();
+                        let node = LNode { log: Shared(log), m: src.m, succ: vec![], expanded: false };
+                        expand_l(lid, &node, pid, &b, interner, out, rot);
+                    } else {
+                        let (key, pid, op, q) = todo_z[x - nl];
+                        let lid = (key >> 32) as u32;
+                        let src = lnodes[lid as usize].as_ref().unwrap();
+                        let mut m = src.m;
+                        m.queue = q.to_sv();
+                        let pre = guarded(|| committed_prefix(&src.log)).unwrap_or_default();
+                        out.executed += 1;
+                        let r = step(&src.log, &m, &op, &pre, &mut out.stats);
+                        if let Some(l2) = settle(r, pid, &op, &b, interner, out) {
+                            out.lazy.push((key, l2));
+                        }
+                    }
+                }
+                if over() {
+                    stop.store(true, Ordering::Relaxed);
+                }
+            })
+        };
+        for o in outs {
+            place(&mut lnodes, o.new_nodes, interner.len());
+            found.extend(o.found);
+            executed += o.executed;
+            noops += o.noops;
+            for k in 0..NST {
+                stats[k] += o.stats[k];
+            }
+            for (lid, succ) in o.succs {
+                let n = lnodes[lid as usize].as_mut().unwrap();
+                n.succ = succ;
+                n.expanded = true;
+            }
+            for (k, l2) in o.lazy {
+                memo.insert(k, l2);
+            }
+        }
+        if lnodes.len() < interner.len() {
+            lnodes.resize_with(interner.len(), || None);
+        }
+        if stop.load(Ordering::Relaxed) {
+            res.cap_hit = Some(format!(
+                "time budget: stopped in BFS level {} after {:.0}s ({} pairs reached, level not completed)",
+                levels, t0.elapsed().as_secs_f64(), pstates.len()
+            ));
+            break 'bfs;
+        }
+        if !found.is_empty() {
+            break 'bfs;
+        }
+
+        phase_s[1] += tp.elapsed().as_secs_f64();
+        let tp = std::time::Instant::now();
+        // ---- 3. successors of every pair of the level
+        #[derive(Default)]
+        struct Next {
+            v: Vec<(u32, Q, u32, Op)>,
+            resolved: u64,
+            blocked: u64,
+        }
+        let nexts: Vec<Next> = {
+            let lnodes = &lnodes;
+            let memo = &memo;
+            let pseen = &pseen;
+            par_for::<Next>(frontier.len(), 2048, threads, &stop, &|range, out| {
+                for x in range {
+                    let (lid, q) = unpkey(frontier[x]);
+                    let pid = (level_lo + x) as u32;
+                    let node = lnodes[lid as usize].as_ref().unwrap();
+                    for (op, l2) in &node.succ {
+                        out.resolved += 1;
+                        if pseen.insert(pkey(*l2, &q)) {
+                            out.v.push((*l2, q, pid, *op));
+                        }
+                    }
+                    let mut bl = 0u64;
+                    let mut lz: SV<(u32, u32), 8> = SV::new();
+                    let mut qs: [Q; 8] = [Q::default(); 8];
+                    let mut os: [Op; 8] = [Op::Ready; 8];
+                    lazy_ops(&node.m, &q, &b, &mut bl, &mut |op, code, q2| {
+                        let n = lz.len();
+                        qs[n] = q2;
+                        os[n] = op;
+                        lz.push((code, 0));
+                    });
+                    out.blocked += bl;
+                    for (n, (code, _)) in lz.as_slice().iter().enumerate() {
+                        let k = ((lid as u64) << 32) | *code as u64;
+                        if let Some(l2) = memo.get(&k) {
+                            out.resolved += 1;
+                            if pseen.insert(pkey(*l2, &qs[n])) {
+                                out.v.push((*l2, qs[n], pid, os[n]));
+                            }
+                        }
+                    }
+                }
+                if over() {
+                    stop.store(true, Ordering::Relaxed);
+                }
+            })
+        };
+        if stop.load(Ordering::Relaxed) {
+            res.cap_hit = Some(format!(
+                "time budget: stopped in BFS level {} after {:.0}s ({} pairs reached, level not completed)",
+                levels, t0.elapsed().as_secs_f64(), pstates.len()
+            ));
+            break 'bfs;
+        }
+        phase_s[2] += tp.elapsed().as_secs_f64();
+        let tp = std::time::Instant::now();
+        level_lo = level_hi;
+        for n in nexts {
+            presolved += n.resolved;
+            blocked += n.blocked;
+            for (l2, q, pid, op) in n.v {
+                pstates.push(pkey(l2, &q));
+                parents.push((pid, op));
+            }
+        }
+        phase_s[3] += tp.elapsed().as_secs_f64();
+        if pstates.len() > max_states {
+            res.cap_hit = Some(format!("state cap {} reached in BFS level {}", max_states, levels));
+            break 'bfs;
+        }
+    }
+    let fixpoint = level_lo >= pstates.len();
+    stats[S_BLOCKED_PSNAP] = blocked;
+
+    // ---- violations: one per kind, shortest first (BFS order), at most 5
+    found.sort_by(|a, b2| (a.pid, &a.kind).cmp(&(b2.pid, &b2.kind)));
+    let mut kinds: HashSet<String> = res.violations.iter().map(|v| v.0.clone()).collect();
+    for f in &found {
+        if kinds.len() >= 5 {
+            break;
+        }
+        if kinds.contains(&f.kind) {
+            continue;
+        }
+        kinds.insert(f.kind.clone());
+        let mut path = path_to(&parents, f.pid);
+        path.push(f.op);
+        res.violations.push((f.kind.clone(), f.detail.clone(), ops_json(&b, &path)));
+    }
+
+    // ---- determinism self-check: re-execute recorded paths from the initial pair, one
+    //      operation after the other on the real code, and compare with the recorded pair
+    let total = pstates.len();
+    let want = 400usize.min(total);
+    let mut validated = 0u64;
+    if res.violations.is_empty() {
+        let mut dst: Stats = [0; NST];
+        for j in 0..want {
+            let id = if want <= 1 { 0 } else { (j as u128 * (total as u128 - 1) / (want as u128 - 1)) as usize };
+            let path = path_to(&parents, id as u32);
+            let mut log = new_log();
+            let mut m = Model::new();
+            let mut ok = true;
+            for op in &path {
+                let pre = guarded(|| committed_prefix(&log)).unwrap_or_default();
+                match step(&log, &m, op, &pre, &mut dst) {
+                    Ok((l2, m2)) => {
+                        log = l2;
+                        m = m2;
+                    }
+                    Err(_) => {
+                        ok = false;
+                        break;
+                    }
+                }
+            }
+            let q = Q::from_sv(&m.queue);
+            let mut ml = m;
+            ml.queue.clear();
+            let lid = interner.get(lkey_of(&log, &ml));
+            if !ok || lid != Some(unpkey(pstates[id]).0) || q != unpkey(pstates[id]).1 {
+                res.violations.push((
+                    "harness:nondeterministic-replay".into(),
+                    format!("re-executing the path of pair {} does not reproduce it", id),
+                    ops_json(&b, &path),
+                ));
+                break;
+            }
+            validated += 1;
+        }
+    }
+
+    // ---- samples
+    if total > 1 {
+        for id in [total - 1, total / 2, total / 7 + 1] {
+            let id = id.min(total - 1);
+            res.samples.push(ops_json(&b, &path_to(&parents, id as u32)));
+        }
+    }
+
+    let mut sj = serde_json::Map::new();
+    for k in 0..NST {
+        sj.insert(ST_NAMES[k].to_string(), json!(stats[k]));
+    }
+    sj.insert("bfs_levels".into(), json!(levels));
+    sj.insert("wall_s_collect_execute_resolve_append".into(), json!(phase_s.iter().map(|x| (x * 10.0).round() / 10.0).collect::<Vec<_>>()));
+    sj.insert("distinct_raftlog_model_pairs_ignoring_ready_records".into(), json!(interner.len()));
+    sj.insert("executions_without_state_change".into(), json!(noops));
+    sj.insert("pair_transitions_resolved_from_executed_operations".into(), json!(presolved));
+    sj.insert("bounds".into(), json!({"max_index": b.n, "max_term": b.t, "max_outstanding_readies": b.q, "max_entries_per_append": b.k}));
+    let mut vac = vec![];
+    for k in ST_REQUIRED {
+        if stats[k] == 0 {
+            vac.push(ST_NAMES[k]);
+        }
+    }
+    if stats[S_BLOCKED_PSNAP] != 0 {
+        vac.push("persist_snap_precondition_blocked must be 0");
+    }
+    sj.insert("vacuous_counters".into(), json!(vac));
+    res.stats = Value::Object(sj);
+    res.states = total as u64;
+    res.transitions = executed;
+    res.validated = validated;
+    res.exhaustive = res.cap_hit.is_none() && res.violations.is_empty() && fixpoint;
+    res.nonvacuous = vac.is_empty() || !res.violations.is_empty();
+    res.wall_s = t0.elapsed().as_secs_f64();
+    res
+}
+
+// ------------------------------------------------------------------------------------------
+// replay
+// ------------------------------------------------------------------------------------------
+
+pub fn replay(j: &Value) -> i32 {
+    let ops = if j.get("ops").map(|o| o.is_object()).unwrap_or(false) { &j["ops"] } else { j };
+    let Some(seq) = ops.get("seq").and_then(|s| s.as_array()) else {
+        eprintln!("raftlog replay: no ops.seq array");
+        return 2;
+    };
+    let bj = &ops["bounds"];
+    let b = Bounds {
+        n: bj["n"].as_u64().unwrap_or(6),
+        t: bj["t"].as_u64().unwrap_or(3),
+        q: bj["q"].as_u64().unwrap_or(2) as usize,
+        k: bj["k"].as_u64().unwrap_or(2) as usize,
+    };
+    let want_kind = j.get("kind").and_then(|k| k.as_str()).map(|s| s.to_string());
+    let mut path = vec![];
+    for o in seq {
+        match Op::from_json(o) {
+            Some(op) => path.push(op),
+            None => {
+                eprintln!("raftlog replay: cannot parse op {}", o);
+                return 2;
+            }
+        }
+    }
+    let mut st: Stats = [0; NST];
+    let mut log = new_log();
+    let mut m = Model::new();
+    let mut hits: Vec<Viol> = vec![];
+    println!("  start: {}", describe(&log));
+    let check = |log: &mut Log, m: &Model, st: &mut Stats| -> Option<Viol> {
+        match guarded(|| observe(log, m, &b, st)) {
+            Ok(Ok(())) => None,
+            Ok(Err(v)) => Some(v),
+            Err((msg, loc)) => Some(("panic:observer".into(), format!("{} @ {}", msg, loc))),
+        }
+    };
+    if let Some(v) = check(&mut log, &m, &mut st) {
+        hits.push(v);
+    }
+    for (n, op) in path.iter().enumerate() {
+        if !hits.is_empty() {
+            break;
+        }
+        let en = enabled_ops(&m, &b, &mut st);
+        if !en.contains(op) {
+            println!("  step {}: {:?} is not in the alphabet of this state (model: {})", n + 1, op, describe_model(&m));
+            return 2;
+        }
+        let pre = guarded(|| committed_prefix(&log)).unwrap_or_default();
+        match step(&log, &m, op, &pre, &mut st) {
+            Ok((l2, m2)) => {
+                log = l2;
+                m = m2;
+                println!("  step {}: {:?}\n      -> {}", n + 1, op, describe(&log));
+                if let Some((k, d)) = check(&mut log, &m, &mut st) {
+                    hits.push((k, format!("{} | {}", d, describe_model(&m))));
+                }
+            }
+            Err(v) => {
+                println!("  step {}: {:?}", n + 1, op);
+                hits.push(v);
+            }
+        }
+    }
+    let mut hit = false;
+    for (k, d) in &hits {
+        println!("  violation [{}] {}", k, d);
+        if want_kind.as_deref().map(|w| w == k).unwrap_or(true) {
+            hit = true;
+        }
+    }
+    if hit {
+        println!("VIOLATION property=C14 engine=raftlog reproduced");
+        1
+    } else {
+        println!("no violation of C14{} on this replay", want_kind.map(|k| format!(" [{}]", k)).unwrap_or_default());
+        0
+    }
 }
